@@ -356,7 +356,7 @@ def judge_text(ctx, text, stmts):
     from vf import ctx as C
 
     try:
-        exp, exp_panic = opy.run_source(text)
+        exp, exp_panic = opy.run_source(text, index_error_is_panic=True)
     except (opy.OutOfDomain, opy.StepLimit) as e:
         return {"status": "discard", "fp": None, "detail": f"oracle: {e}",
                 "counters": {"discard_out_of_domain": 1}}
@@ -414,7 +414,8 @@ def judge_text(ctx, text, stmts):
         # panic agreement
         if exp_panic is not None:
             counters["panics"] = 1
-            if out.panic is None or exp_panic not in out.panic:
+            if out.panic is None or (exp_panic not in out.panic and not (
+                    exp_panic == "index out of bounds" and "out of bounds" in out.panic.lower())):
                 viols.append({"mech": "C05:panic-missing-or-message",
                               "witness": {"text": text, "expected_panic": exp_panic,
                                           "observed_panic": out.panic}})
@@ -450,7 +451,15 @@ def build(rng):
         # panic in a checked argument slot of a random statement
         i = rng.randrange(n)
         g.k += 1
-        stmts[i] = f'result("v{i}", t({g.k}, 1) + t({g.k + 1}, panic("boom{i}")) + t({g.k + 2}, 2))'
+        if rng.random() < 0.5:
+            stmts[i] = f'result("v{i}", t({g.k}, 1) + t({g.k + 1}, panic("boom{i}")) + t({g.k + 2}, 2))'
+        else:
+            # a panic raised by a compiler-built check (index out of bounds), not by an explicit call:
+            # nothing written after it in the statement, and no later statement, may run
+            form = rng.choice([f't({g.k}, 1) + xs[t({g.k + 1}, {rng.randint(3, 9)})] + t({g.k + 2}, 2)',
+                               f'g2(t({g.k}, 1), xs[t({g.k + 1}, {rng.randint(3, 9)})]) + t({g.k + 2}, 2)',
+                               f'xs[t({g.k}, 0)] + mm[t({g.k + 1}, {rng.randint(2, 5)})][0] + t({g.k + 2}, 2)'])
+            stmts[i] = f'result("v{i}", {form})'
         g.k += 2
     lines = ["@guppy", "def main() -> None:", "    xs = array(10, 20, 30)", "    acc = 1",
              "    mm = array(array(1, 2), array(3, 4))",
